@@ -31,6 +31,15 @@ CHECKS = {
  "C10": dict(cat="exploration", design="§3 C10", technique="exhaustive enumeration of all 2^17 optional-feature subsets of a constant template, payload re-decoded and hashes recomputed independently",
    text="Every subset of 17 optional transaction features is compiled; the payload must decode with pallas as Conway, its body bytes (located by an independent CBOR reader) must hash to the reported hash, auxiliary and script data hashes must be present exactly when needed and equal digests recomputed from the payload (language views re-encoded from the configured cost model), set-like fields must have no duplicate or empty entries, network id must match, and recompilation (same compiler, fresh compiler, other iteration order of a 2-UTxO set) must be byte-identical.",
    note="pallas decoding and blake2b are trusted; a compile error is accepted only for the one feature combination where a redeemer guards a policy whose mint and burn cancel."),
+ "C06": dict(cat="exploration", design="§3 C06", technique="exhaustive enumeration of IR contexts (every variant x child slot, nested to depth 2) x probes x Tx fields, oracle = generic structural walk of the serialised IR",
+   text="Every one-level context (each Expression / BuiltInOp / CompilerOp / Coerce / Param / InputQuery / AssetExpr / AdHocDirective variant with the hole in each child slot) and every two-level nesting, around a parameter / query / fees / query-holding-a-parameter probe, placed in each of 19 Tx fields, plus every tx of the corpus: whatever a generic walk of the serialised TIR finds unresolved must be reported by find_params / find_queries, must be gone after supplying everything reported, and withholding any reported parameter must give MissingTxArg naming it.",
+   note="Ill-typed trees whose application or reduction errs are counted but not judged for the closure clause; language-level position deviations are covered through the corpus only."),
+ "C11": dict(cat="exploration", design="§3 C11", technique="exhaustive enumeration of IR trees for round trip; exhaustive single-position corruption (every truncation / bit flip / byte substitution) of valid encodings, each block in an isolated worker",
+   text="Round trip of every tirgen tree (depth <= 2), leaf sweeps over boundary integers / lengths / UTxO sets, and every lowered corpus tx (canonical equality and equal reported parameters / queries); for 40 valid encodings every prefix, every single-bit flip, 18 byte substitutions at every offset, spliced nesting bombs and length bombs at every offset, standalone bombs to depth 10^6 and 7 version strings must make from_bytes return Ok or Err under a 10 s / 4 GiB cap.",
+   note="Multi-position corruptions beyond bombs are not covered; canonical form sorts maps and UTxO sets."),
+ "C14": dict(cat="exploration", design="§3 C14", technique="exhaustive enumeration of (IR tree | corpus tx) x per-type boundary argument alphabets x stores x protocol parameters, every back-end entry point driven in isolated workers",
+   text="Every tirgen tree (depth 1, thorough: 2) and every corpus tx is driven through resolve_tx and through each stage (apply_args, apply_fees, reduce, compiler ops, apply_inputs, reduce, compile on possibly non-constant IR) for every value of the boundary alphabet of each parameter (37 integers, byte / address lengths incl. 27..29, 31..33, 56..58, txid lengths, 9 wrong-typed values), 4 stores (empty, odd UTxOs, extreme amounts) and 6 protocol-parameter sets (missing cost models, 0 and 2^64-1 fee coefficients). Every call must return.",
+   note="One non-default argument at a time (pairs in thorough for IR trees via nesting); panic signatures are function + normalised message."),
 }
 PENDING = {}
 
